@@ -93,6 +93,13 @@ func exactSnapshot(s *txfile.VerifSnapshot) string {
 		ids(s.FreelistPages), wal, ids(s.WALPages))
 }
 
+// statsString renders the FileStats most recently reported to the Observer
+// (a read transaction runs after every item, so they are current).
+func statsString(r *harness.Runner) string {
+	st := r.LastStats()
+	return fmt.Sprintf(" stats{data=%d metaArea=%d metaAlloc=%d maxSize=%d}", st.DataAllocated, st.MetaArea, st.MetaAllocated, st.MaxSize)
+}
+
 type twinRun struct {
 	exactBeforeT, exactAfterT string
 	trace                     []harness.Obs
@@ -119,7 +126,7 @@ func runTwin(p *harness.Program, skipT bool) twinRun {
 		before := r.Counters["commit"]
 		if it.Tag == "T" {
 			s := r.F.VerifState()
-			out.exactBeforeT = exactSnapshot(&s)
+			out.exactBeforeT = exactSnapshot(&s) + statsString(r)
 		}
 		if v := r.SafeRunItem(i, it); v != nil {
 			out.v = v
@@ -132,7 +139,7 @@ func runTwin(p *harness.Program, skipT bool) twinRun {
 		s := r.F.VerifState()
 		out.snapAfter[i] = userSnapshot(&s)
 		if it.Tag == "T" {
-			out.exactAfterT = exactSnapshot(&s)
+			out.exactAfterT = exactSnapshot(&s) + statsString(r)
 		}
 	}
 	out.v = r.Finish()
